@@ -1035,6 +1035,7 @@ def plan_threads(focus, seed, tier):
             ref = gen.gen_model(rng, frag, pool, cfg)
             b.op(op="NEW", m=h, ref=ref, style=rng.choice(["td", "bu"]), frag=frag)
             models.append((h, ref))
+    need_plain = False
     for _c in range(rng.randint(2, 5 if tier == "quick" else 12)):
         nl = rng.choice([2, 2, 2, 3])
         # (a model shared by the lanes is only read: exported and analysed, never edited)
@@ -1090,7 +1091,14 @@ def plan_threads(focus, seed, tier):
             cop["interrupt"] = {"lane": rng.randrange(len(lanes)),
                                 "after": rng.randint(1, 60) if rng.random() < 0.4 else
                                 int(math.exp(rng.uniform(0.0, math.log(4000.0))))}
+            if rng.random() < 0.5:
+                # nothing of this operation runs before the cancelled call (cold caches, first
+                # use); the reference then comes from an interpreter of its own
+                cop["order"] = "cancel_first"
+                need_plain = True
     b.plan["replicas"] = [{"env": {}, "disk_cfg": {}}]
+    if need_plain:
+        b.plan["replicas"].append({"plain": True, "env": {}, "disk_cfg": {}})
     return b.plan
 
 
